@@ -91,7 +91,7 @@ fn c16_1_sample_step_quick() {
     sample_step(CAP_QUICK_S);
 }
 
-// @verif id=C16.1t props=C16,C06,C10 tier=thorough timeout=3000
+// @verif id=C16.1t props=C16,C06 tier=thorough timeout=3000
 // @functions RttEstimator::sample, rtte::calc_rto, rtte::clamp, rtte::duration_abs_diff
 // @bounds as C16.1 with CAP = 2^20 s (~12 days)
 // @asserts as C16.1
@@ -101,7 +101,7 @@ fn c16_1t_sample_step_thorough() {
     sample_step(CAP_THOROUGH_S);
 }
 
-// @verif id=C16.2 props=C16,C06,C10 tier=quick
+// @verif id=C16.2 props=C16,C06 tier=quick
 // @functions RttEstimator::on_rto_timeout, rtte::clamp, RttEstimator::sample
 // @bounds one timeout from EVERY valid state (CAP 2^15 s), followed by one sample from the backed-off state compared with the same sample applied to the original state
 // @asserts RTO' == min(2*RTO, 60s) >= RTO; SRTT/RTTVAR untouched; the next sample yields the same RTO and SRTT whether or not the timeout happened (returns to the sample-derived value)
@@ -137,7 +137,7 @@ fn c16_2_timeout_doubles_and_sample_restores() {
     assert!(a.roundtrip_time() == b.roundtrip_time(), "C16: SRTT after a sample does not depend on earlier back-off");
 }
 
-// @verif id=C16.3 props=C16,C10 tier=quick
+// @verif id=C16.3 props=C16 tier=quick
 // @functions RttEstimator::default, RttEstimator::on_rto_timeout, RttEstimator::retransmission_timeout
 // @bounds base case: the constructor's state; then 9 successive timeouts (enough to reach the cap from the initial value)
 // @asserts default satisfies the invariant; successive timeouts double until 60 s and stay there
